@@ -219,7 +219,8 @@ Enabled(S) ==
    UNION {
      IF "New" \in Acts THEN { [act |-> "New", x |-> x, fmt |-> t, r |-> r, o |-> o, ks |-> <<k1, k2>>] :
           x \in { y \in Obj : Free(S, y) }, t \in Fmts, r \in Rnds, o \in Ovfs, k1 \in {4}, k2 \in {4, 0} } ELSE {},
-     IF "New1" \in Acts THEN UNION { { [act |-> "New", x |-> x, fmt |-> t, r |-> r, o |-> o, ks |-> <<k1, k2>>] : k1 \in Grid(t), k2 \in Grid(t) } :
+     IF "New1" \in Acts THEN UNION { { [act |-> "New", x |-> x, fmt |-> t, r |-> r, o |-> o, ks |-> <<k1, k2>>] : k1 \in Grid(t), k2 \in Grid(t) }
+                                     \cup { [act |-> "New", x |-> x, fmt |-> t, r |-> r, o |-> o, ks |-> <<k1>>] : k1 \in Grid(t) } :     \* (one-element objects: sources of x[j] = y)
           x \in { y \in Obj : Free(S, y) }, t \in Fmts, r \in Rnds, o \in Ovfs } ELSE {},
      IF "Store" \in Acts THEN UNION { { [act |-> "Store", x |-> x, ks |-> IF LenOf(S, x) = 2 THEN <<k1, k2>> ELSE <<k1>>] :
           k1 \in Grid(S.objs[x].fmt), k2 \in (IF LenOf(S, x) = 2 THEN Grid(S.objs[x].fmt) ELSE {0}) } : x \in Live(S) } ELSE {},
